@@ -100,5 +100,17 @@ def tryAddConstraintM (s : St) (a b : Nat) : Option (St × List Nat) :=
   | none => some (s, [])
   | some groups => s.resolveGroups groups
 
+/-- `remove_constraint_edge` (the edge is named by its end vertices as in the harness:
+`get_edge_from_neighbors`, then `as_undirected`): `none` = no such edge; otherwise the new state and
+the answer.  The flag is cleared and `legalize_edge(edge.as_directed(), true)` restores the Delaunay
+property around it. -/
+def removeConstraintEdgeM (s : St) (a b : Nat) : Option (St × Bool) :=
+  match s.edgeFromNeighbors a b with
+  | none => none
+  | some e =>
+    let u := e / 2
+    if s.isFlag (2 * u) then some ((s.unmarkFlag u).legalizeEdge (2 * u) true, true)
+    else some (s, false)
+
 end St
 end Spade
